@@ -82,10 +82,10 @@ def check_change_predicate(ctx, F, E):
                             W.add(x["n"])
             # a saved field that is only ever written together with a compared one cannot be the *only* effect of a request:
             # compoRemains (how an already requested change is applied) is written by requestImmediate next to compoRequested
-            reach = _reach(F, fid)
+            reach = set(F.fkey(x) for x in _reach(F, fid))       # by pattern key: writers() samples one representative per pattern
             tied = {}
             for f in sorted(W - compared):
-                ws = [x for x in E.writers(f) if x in reach]
+                ws = [x for x in E.writers(f) if F.fkey(x) in reach]
                 if ws and all(E.direct(x) & compared for x in ws):
                     tied[f] = sorted(set(F.fdisp(x) for x in ws))
             W -= set(tied)
